@@ -295,9 +295,11 @@ def Thr.finished : Thr → Bool
   | .runner => true
   | _ => false
 
-/-- A client blocked in `ShutdownComplete.Wait()` (legitimately so while the pool is running). -/
+/-- A client blocked in `ShutdownComplete.Wait()` — directly, or in `Start`'s wait for the previous
+shutdown (legitimately so while the pool is running again). -/
 def Thr.atWaitComplete : Thr → Bool
   | .client ⟨.wc, _⟩ => true
+  | .client ⟨.stWait1, _⟩ => true
   | _ => false
 
 def mkClients (scripts : List (List Op)) : List Thr :=
